@@ -332,6 +332,9 @@ func c05Sequences(c *Ctx) {
 				roots = append(roots, root)
 				want = append(want, item{Key: treeKey(root)})
 			}
+			if len(roots) > 0 && len(held[0]) > 1 {
+				roots[0].Write(&limitWriter{k: len(held[0]) / 2}) // a write that fails half-way must leave nothing behind
+			}
 			for j, m := range held {
 				var w bytes.Buffer
 				roots[j].Write(&w)
